@@ -230,6 +230,29 @@ func (s *State) rangeOfD(e *Expr, depth int) ISet {
 					v = isConst(c & d)
 				}
 			}
+		case "|", "^":
+			v = isTop()
+			if cx, ok := rx.IsConst(); ok {
+				if cy, ok := ry.IsConst(); ok {
+					if e.binOp() == "|" {
+						v = isConst(cx | cy)
+					} else {
+						v = isConst(cx ^ cy)
+					}
+				}
+			}
+			if v.IsTop() && !rx.Empty() && !ry.Empty() && rx.Lo() >= 0 && ry.Lo() >= 0 && rx.Hi() != posInf && ry.Hi() != posInf {
+				// both non-negative: the result is below the next power of two
+				m := rx.Hi()
+				if ry.Hi() > m {
+					m = ry.Hi()
+				}
+				p2 := int64(1)
+				for p2 <= m {
+					p2 <<= 1
+				}
+				v = isRange(0, p2-1)
+			}
 		case ">>":
 			if c, ok := ry.IsConst(); ok && c >= 0 && c < 63 && !rx.Empty() && rx.Lo() >= 0 {
 				v = isRange(rx.Lo()>>uint(c), rx.Hi()>>uint(c))
@@ -553,7 +576,24 @@ func (s *State) divisionFacts(l Lin, ges []Fact) []Fact {
 	var out []Fact
 	seen := map[string]bool{}
 	consider := func(e *Expr) {
-		if e == nil || seen[e.Key] || e.Op != "bin" || e.binOp() != "/" || len(e.Args) != 2 {
+		if e == nil || seen[e.Key] {
+			return
+		}
+		// m = min(a, b): a - m >= 0, b - m >= 0 (max symmetrically)
+		if e.Op == "call" && (e.S == "min" || e.S == "max") && len(e.Args) == 2 {
+			seen[e.Key] = true
+			m := linAtom(e)
+			for _, x := range e.Args {
+				lx := s.linOf(x)
+				if e.S == "min" {
+					out = append(out, Fact{L: lx.add(m, -1)})
+				} else {
+					out = append(out, Fact{L: m.add(lx, -1)})
+				}
+			}
+			return
+		}
+		if e.Op != "bin" || e.binOp() != "/" || len(e.Args) != 2 {
 			return
 		}
 		seen[e.Key] = true
